@@ -19,7 +19,7 @@ def tla_set(xs, strings=False):
 
 
 def constants(limits=(3,), unlim=(0,), rowlens=(2,), maxbytes=30000000, as_coded=False, kinds=("ping",), maxops=1,
-              shard4_limit=0, shard4_rowlens=()):
+              shard4_limit=0, shard4_rowlens=(), maxtotal=2000000000):
     b = "TRUE" if as_coded else "FALSE"
     return """CONSTANTS
   Limits = %s
@@ -27,6 +27,7 @@ def constants(limits=(3,), unlim=(0,), rowlens=(2,), maxbytes=30000000, as_coded
   RowLens = %s
   Threshold = %d
   MaxBytes = %d
+  MaxTotalBytes = %d
   LimitInclusive = %s
   ShardIgnoresMore = %s
   LimitPerChunk = %s
@@ -34,7 +35,7 @@ def constants(limits=(3,), unlim=(0,), rowlens=(2,), maxbytes=30000000, as_coded
   Shard4RowLens = %s
   Kinds = %s
   MaxOps = %d
-""" % (tla_set(limits), tla_set(unlim), tla_set(rowlens), THRESHOLD, maxbytes, b, b, b, shard4_limit,
+""" % (tla_set(limits), tla_set(unlim), tla_set(rowlens), THRESHOLD, maxbytes, maxtotal, b, b, b, shard4_limit,
        tla_set(shard4_rowlens), tla_set(kinds, True), maxops)
 
 
